@@ -67,13 +67,21 @@ impl<'v> Evaluator<'v, '_, '_> {
             .into_iter()
             .rev()
             .find_map(to_scope_names_by_local_slot_id);
+        // Several local slots can carry the same name: the variable of a comprehension has a slot
+        // of its own, after the function's locals. Between statements the name denotes the
+        // function's local, which is the first slot of that name.
+        let mut pushed: SmallMap<FrozenStringValue, u32> = SmallMap::new();
         if let Some(names) = &locals {
             for (slot, name) in names.iter().enumerate() {
+                if pushed.contains_key(name) {
+                    continue;
+                }
+                pushed.insert(*name, slot as u32);
                 if let Some(value) = self
                     .current_frame
                     .get_slot_slow(LocalSlotIdCapturedOrNot(slot as u32))
                 {
-                    self.module_env.set(name, value)
+                    self.module_env.set(name, value);
                 }
             }
         }
@@ -86,6 +94,10 @@ impl<'v> Evaluator<'v, '_, '_> {
         if let Some(names) = &locals {
             for (slot, name) in names.iter().enumerate() {
                 if let Some(value) = self.module_env.get(name) {
+                    // Only the slot the value came from receives it back.
+                    if pushed.get(name) != Some(&(slot as u32)) {
+                        continue;
+                    }
                     self.current_frame
                         .set_slot_slow(LocalSlotIdCapturedOrNot(slot as u32), value)
                 }
